@@ -67,6 +67,7 @@ def main() -> None:
         "entered": counts["entered"],
         "reached": counts["reached"],
         "known_hits": counts["known_hits"],
+        "pruned": counts.get("pruned", 0),
         "solver_calls": solver["calls"],
         "solver_seconds": round(solver["seconds"], 3),
         "messages": [],
@@ -104,7 +105,9 @@ def main() -> None:
     # reachability twin: the same harness with the oracle point turned into a failure must be refuted
     twin = "skipped"
     if status == "confirmed":
-        if counts["reached"] == 0:
+        if counts["reached"] == 0 and counts.get("pruned", 0) > 0 and counts["pruned"] >= counts["entered"]:
+            twin = "empty"  # every path of this slice ended at an event that is not enabled: nothing to judge
+        elif counts["reached"] == 0:
             twin = "unreached"
         else:
             track.TWIN = True
